@@ -37,6 +37,8 @@ type c06Case struct {
 	Doc    string  `json:"doc,omitempty"`
 	Target string  `json:"target,omitempty"`
 	Depth  int     `json:"depth,omitempty"`
+	Shape  *jShape `json:"shape,omitempty"`
+	Seed   int64   `json:"seed,omitempty"`
 }
 
 // guarded runs f under recover and a watchdog
@@ -275,16 +277,34 @@ func c06Vector(c *Ctx, raw stdjson.RawMessage) {
 	if stdjson.Unmarshal(raw, &v) == nil && v.Shape != nil {
 		// layout-sensitive shapes by value and by pointer: only the monitors matter here
 		c.Nontrivial()
-		for i, val := range shapeValues(v.Shape, c.Seed, jLimit) {
-			k := c06Case{Kind: "shape", Target: v.Shape.String(), Depth: i}
-			x := val.Interface()
-			p := reflect.New(val.Type())
-			p.Elem().Set(val)
-			for _, y := range []any{x, p.Interface()} {
-				yy := y
-				c.Eval(1)
-				if pn, hung := guarded(func() { json.Marshal(yy) }); pn != "" || hung {
-					c.Diverge("C06", "json.Marshal", "a returned error at worst", fmt.Sprintf("%s hung=%v", pn, hung), "", k)
+		c06Shape(c, v.Shape, c.Seed)
+	}
+}
+
+// c06Shape: every value of the shape through Marshal, and through Append into destinations whose spare capacity is
+// just short of, exactly, and just above what the encoding needs (the encoders grow or reslice the destination by hand)
+func c06Shape(c *Ctx, sh *jShape, seed int64) {
+	for i, val := range shapeValues(sh, seed, jLimit) {
+		k := c06Case{Kind: "shape", Target: sh.String(), Depth: i, Shape: sh, Seed: seed}
+		x := val.Interface()
+		p := reflect.New(val.Type())
+		p.Elem().Set(val)
+		for _, y := range []any{x, p.Interface()} {
+			yy := y
+			c.Eval(1)
+			var out []byte
+			if pn, hung := guarded(func() { out, _ = json.Marshal(yy) }); pn != "" || hung {
+				c.Diverge("C06", "json.Marshal", "a returned error at worst", fmt.Sprintf("%s hung=%v", pn, hung), "", k)
+				continue
+			}
+			n := len(out)
+			for _, pre := range []int{0, 3} {
+				for spare := max(n-3, 0); spare <= n+1; spare++ {
+					dst := make([]byte, pre, pre+spare)
+					c.Eval(1)
+					if pn := protect(func() { json.Append(dst, yy, json.EscapeHTML|json.SortMapKeys) }); pn != "" {
+						c.Diverge("C06", "json.Append(destination with just about the capacity needed)", "a returned error at worst", fmt.Sprintf("%s (spare %d, needed %d)", pn, spare, n), "", k)
+					}
 				}
 			}
 		}
@@ -420,6 +440,8 @@ func c06Replay(c *Ctx, raw stdjson.RawMessage) {
 		c06Extra(c)
 	case k.Kind == "doc":
 		c06Decode(c, k, []byte(k.Doc))
+	case k.Kind == "shape" && k.Shape != nil:
+		c06Shape(c, k.Shape, k.Seed)
 	}
 }
 
